@@ -1262,6 +1262,7 @@ fn chaos_of(base: &AppSpec, seed: u64) -> AppSpec {
                 allow_unused: false,
                 v1_flip: false,
                 view_of: None,
+                specific_eh: None,
             };
             let a = spec.types.len();
             let (la, lb) = [(Life::Transient, Life::Transient), (Life::Transient, Life::Request), (Life::Request, Life::Transient)][next() % 3];
